@@ -118,6 +118,7 @@ static int _my_PyUnicode_AsChar16(PyObject *unicode,
     Py_ssize_t len = PyUnicode_GET_LENGTH(unicode);
     unsigned int kind = PyUnicode_KIND(unicode);
     void *data = PyUnicode_DATA(unicode);
+    cffi_char16_t *end = result + resultlen;
     Py_ssize_t i;
 
     for (i = 0; i < len; i++) {
@@ -136,6 +137,8 @@ static int _my_PyUnicode_AsChar16(PyObject *unicode,
         else
             *result++ = ordinal;
     }
+    if (result < end)
+        *result = 0;    /* room for the terminator: write it */
     return 0;
 }
 
@@ -143,7 +146,10 @@ static int _my_PyUnicode_AsChar32(PyObject *unicode,
                                   cffi_char32_t *result,
                                   Py_ssize_t resultlen)
 {
-    if (PyUnicode_AsUCS4(unicode, (Py_UCS4 *)result, resultlen, 0) == NULL)
+    /* write the terminator too if there is room for it */
+    int copy_null = resultlen > PyUnicode_GET_LENGTH(unicode);
+    if (PyUnicode_AsUCS4(unicode, (Py_UCS4 *)result, resultlen,
+                         copy_null) == NULL)
         return -1;
     return 0;
 }
